@@ -630,6 +630,15 @@ RULES = {
                  "cmp :: min ( $$a , $$b )", "Ord :: min ( $$a , $$b )"),
     "R16l": Rule("R16l", "if t0 < qt1 { -> if (t0.cmp(&qt1) == Less) {  (std default `PartialOrd::lt` is `matches!(partial_cmp, Some(Less))`, and partial_cmp is `Some(self.cmp(other))` for BigUint)",
                  "if t0 < qt1 {", "if ( t0 . cmp ( & qt1 ) == core :: cmp :: Ordering :: Less ) {"),
+    "R16w": Rule("R16w", "while x < xn { -> while (x.cmp(&xn) == Less) {  (std default PartialOrd::lt over partial_cmp = Some(cmp))",
+                 "while x < xn {", "while ( x . cmp ( & xn ) == core :: cmp :: Ordering :: Less ) {"),
+    "R16x": Rule("R16x", "while x > xn { -> while (x.cmp(&xn) == Greater) {  (std default PartialOrd::gt over partial_cmp = Some(cmp))",
+                 "while x > xn {", "while ( x . cmp ( & xn ) == core :: cmp :: Ordering :: Greater ) {"),
+    "R24": Rule("R24", "let guess = match self.to_f64() { .. }; -> let guess = __root_guess(self);  (ABSTRACTION: the floating-point initial guess - f64 conversion, sqrt/cbrt/ln/exp, the recursive scaled root - is replaced by an arbitrary positive canonical value; that computation is assumed to terminate without panic; the function result is proved independent of the guess)",
+                "let guess = match self . to_f64 ( ) { $$arms } ;", "let guess = __root_guess ( self ) ;"),
+    "R3u2": Rule("R3u2", "x.sqrt().into() (num_integer::Roots on u64: external crate) -> From::from(__u64_sqrt(x))", "x . sqrt ( ) . into ( )", "From :: from ( __u64_sqrt ( x ) )"),
+    "R3u3": Rule("R3u3", "x.cbrt().into() (num_integer::Roots on u64: external crate) -> From::from(__u64_cbrt(x))", "x . cbrt ( ) . into ( )", "From :: from ( __u64_cbrt ( x ) )"),
+    "R3un": Rule("R3un", "x.nth_root(n).into() (num_integer::Roots on u64: external crate) -> From::from(__u64_nth_root(x, n))", "x . nth_root ( n ) . into ( )", "From :: from ( __u64_nth_root ( x , n ) )"),
     "R17": Rule("R17", "self.sign.cmp(&other.sign) -> sign_cmp(&self.sign, &other.sign)",
                 "self . sign . cmp ( & other . sign )", "sign_cmp ( & self . sign , & other . sign )"),
     "R2b": Rule("R2b", "Some((&x, y)) => { BODY } -> Some((x_r__, y)) => { let x = *x_r__; BODY }",
@@ -644,6 +653,10 @@ RULES = {
                 "( digit & bit_mask )", "( * digit & bit_mask )"),
     "R3t": Rule("R3t", "q * &t1 % modulus -> Rem::rem(Mul::mul(q, &t1), modulus)  (operator definition, left-associative)",
                 "q * & t1 % modulus", "Rem :: rem ( Mul :: mul ( q , & t1 ) , modulus )"),
+    "R3v": Rule("R3v", "self / (s * s) -> Div::div(self, Mul::mul(s, s))  (operator definitions)", "self / ( s * s )", "Div :: div ( self , Mul :: mul ( s , s ) )"),
+    "R3w": Rule("R3w", "(s << 1) + q -> Add::add(Shl::shl(s, 1), q)  (operator definitions)", "( s << 1 ) + q", "Add :: add ( Shl :: shl ( s , 1 ) , q )"),
+    "R3x": Rule("R3x", "self / s.pow(n_min_1) -> Div::div(self, s.pow(n_min_1))", "self / s . pow ( n_min_1 )", "Div :: div ( self , s . pow ( n_min_1 ) )"),
+    "R3y": Rule("R3y", "n_min_1 * s + q -> Add::add(Mul::mul(n_min_1, s), q)", "n_min_1 * s + q", "Add :: add ( Mul :: mul ( n_min_1 , s ) , q )"),
     "R3i": Rule("R3i", "rem.into() -> From::from(rem)  (std: blanket `impl Into<U> for T where U: From<T>`)", "rem . into ( )", "From :: from ( rem )"),
     "R3o": Rule("R3o", "One::one() -> BigUint::one()  (the impl selected by the return type)", "One :: one ( )", "BigUint :: one ( )"),
     "R12g": Rule("R12g", "BigDigit::from_u128(x) -> __digit_from_u128(x)  (num_traits::FromPrimitive on u64: external crate; helper carries the assumed contract)",
